@@ -23,17 +23,26 @@ class Relabel:
     """Adapter that files another property's rule part under one rule of this property (shared rows): the obligations
     are the same, the report names the property whose statement also depends on them."""
 
-    def __init__(self, rep, rule):
+    def __init__(self, rep, rule, keep=None):
+        # keep(rule, instance) selects the rows that this property's statement depends on (default: all of them)
+        object.__setattr__(self, "keep", keep)
         self.rep, self.rule = rep, rule
 
+    def _k(self, rule, instance):
+        return self.keep is None or self.keep(rule, instance)
+
     def ok(self, rule, instance, site, detail="", nontrivial=True):
-        self.rep.ok(self.rule, f"{rule}:{instance}", site, detail, nontrivial)
+        if self._k(rule, instance):
+            self.rep.ok(self.rule, f"{rule}:{instance}", site, detail, nontrivial)
 
     def fail(self, rule, instance, site, detail):
-        self.rep.fail(self.rule, f"{rule}:{instance}", site, detail)
+        if self._k(rule, instance):
+            self.rep.fail(self.rule, f"{rule}:{instance}", site, detail)
 
     def check(self, cond, rule, instance, site, ok_detail="", fail_detail=""):
-        return self.rep.check(cond, self.rule, f"{rule}:{instance}", site, ok_detail, fail_detail)
+        if self._k(rule, instance):
+            return self.rep.check(cond, self.rule, f"{rule}:{instance}", site, ok_detail, fail_detail)
+        return cond
 
     def expect_min(self, rule, n):
         pass
